@@ -1234,6 +1234,12 @@ func EvalProgram(progSrc string, files []InputFile, rootSelectors []string, stdo
 				}
 			}
 		}
+
+		// More is also false at a stray ']' or '}' and when the reader fails:
+		// only a clean end of input may end the stream
+		if _, err := d.Token(); err != nil && err != io.EOF {
+			return &ev, JsonError{err.Error(), file.Name}
+		}
 	}
 
 	// end rules
